@@ -31,6 +31,12 @@ impl Check for ExplainCheck {
 #[cfg(feature = "explanations")]
 pub use imp::*;
 
+#[cfg(not(feature = "explanations"))]
+pub fn check_rw_proofs(_s: &mut crate::sess::Sess<crate::langs::LA, crate::analysis::SimAn>, _p: u32, _orng: &mut crate::rng::Rng, out: &mut crate::run::Outcome, _at: usize) -> Option<crate::run::Violation> {
+    out.discarded = Some("needs the explanations build".into());
+    None
+}
+
 #[cfg(feature = "explanations")]
 mod imp {
     use super::super::sesscc::{gen_sess_run, relative_renamings, state_hash};
@@ -236,6 +242,10 @@ mod imp {
     /// is (l, r) an instance of the rule lp => rp (in either orientation of the equation)?
     fn is_rule_instance(lp: &Pat, rp: &Pat, c: &Eqn) -> bool {
         for (a, b) in [(&c.0, &c.1), (&c.1, &c.0)] {
+            // binders of the matched side get names that occur nowhere else, so that a variable's
+            // term moved under another binder by the right side cannot be captured here
+            let mut fresh = 970_000;
+            let a = &a.rename(&BTreeMap::new(), &mut fresh);
             let mut slotmap = BTreeMap::new();
             let mut vars = BTreeMap::new();
             let mut names = BTreeMap::new();
@@ -252,7 +262,7 @@ mod imp {
 
     /// entry point for other checks: re-checks `proof` and its conclusion against `query`.
     /// Ok((proof nodes checked, leaves justified by a rule)) or Err((clause, message)).
-    pub fn check_proof(eg: &EGraph<LS, ()>, nm: &mut Naming, proof: &ProvenEq, asserted: &[(Tm, Tm, String)], rules: &[(Pat, Pat, String)], query: &Eqn) -> Result<(u64, u64), (String, String)> {
+    pub fn check_proof<L: SimLang, N: Analysis<L>>(eg: &EGraph<L, N>, nm: &mut Naming, proof: &ProvenEq, asserted: &[(Tm, Tm, String)], rules: &[(Pat, Pat, String)], query: &Eqn) -> Result<(u64, u64), (String, String)> {
         let mut ck = Checker { eg, nm, asserted, rules, memo: HashMap::new(), nodes: 0, rule_leaves: 0 };
         let c = ck.check(proof).map_err(|m| ("proof_step_valid".to_string(), m))?;
         if !match_pair(&c, query) && !match_pair(query, &c) {
@@ -261,8 +271,8 @@ mod imp {
         Ok((ck.nodes, ck.rule_leaves))
     }
 
-    struct Checker<'a> {
-        eg: &'a EGraph<LS, ()>,
+    struct Checker<'a, L: SimLang, N: Analysis<L>> {
+        eg: &'a EGraph<L, N>,
         nm: &'a mut Naming,
         asserted: &'a [(Tm, Tm, String)],
         rules: &'a [(Pat, Pat, String)],
@@ -271,11 +281,11 @@ mod imp {
         pub nodes: u64,
     }
 
-    impl<'a> Checker<'a> {
+    impl<'a, L: SimLang, N: Analysis<L>> Checker<'a, L, N> {
         fn eqn(&mut self, p: &ProvenEq) -> Eqn {
             let e = p.equ();
-            let l = from_re::<LS>(&self.eg.get_syn_expr(&e.l), self.nm);
-            let r = from_re::<LS>(&self.eg.get_syn_expr(&e.r), self.nm);
+            let l = from_re::<L>(&self.eg.get_syn_expr(&e.l), self.nm);
+            let r = from_re::<L>(&self.eg.get_syn_expr(&e.r), self.nm);
             (l, r)
         }
 
@@ -326,6 +336,62 @@ mod imp {
             self.memo.insert(key, c.clone());
             Ok(c)
         }
+    }
+
+    /// C07 under saturation (part C07S): after a rewrite iteration over LA, explains why inserted
+    /// terms are equal to the smallest term of their class and to each other; leaves must be
+    /// instances of rules of the pool with the rule's name as justification.
+    pub fn check_rw_proofs(s: &mut Sess<LA, crate::analysis::SimAn>, p: u32, orng: &mut Rng, out: &mut Outcome, at: usize) -> Option<Violation> {
+        let rules: Vec<(Pat, Pat, String)> = crate::rules::rule_pool(p).iter().map(|r| (r.l.clone(), r.r.clone(), r.name.to_string())).collect();
+        let nt = s.tracked.len();
+        if nt == 0 {
+            return None;
+        }
+        let mut queries: Vec<(Tm, Tm)> = Vec::new();
+        // read-only use of the e-graph between explanation calls (the previous call of this
+        // function ended with explain_equivalence): it has to be in a consistent state
+        let picks: Vec<usize> = (0..3).map(|_| orng.below(nt)).collect();
+        let smalls = catch_op(|| {
+            let ex = Extractor::<LA, AstSize>::new(&s.eg, AstSize);
+            picks.iter().map(|i| ex.extract(&s.eg.find_applied_id(&s.tracked[*i].h), &s.eg)).collect::<Vec<_>>()
+        });
+        match smalls {
+            Err(p) => return Some(panic_violation("C07", "egraph_usable_after_explanation", &p, at)),
+            Ok(v) => {
+                for (i, re) in picks.iter().zip(v.iter()) {
+                    let small = from_re::<LA>(re, &mut s.nm);
+                    queries.push((s.tracked[*i].tm.clone(), small));
+                }
+            }
+        }
+        for _ in 0..8 {
+            let (i, j) = (orng.below(nt), orng.below(nt));
+            if i != j && s.eg.eq(&s.tracked[i].h, &s.tracked[j].h) {
+                queries.push((s.tracked[i].tm.clone(), s.tracked[j].tm.clone()));
+            }
+        }
+        for (a, b) in queries {
+            if a.alpha_eq(&b) {
+                continue;
+            }
+            let re1 = to_re::<LA>(&a, &mut s.nm);
+            let re2 = to_re::<LA>(&b, &mut s.nm);
+            let proof = match catch_op(|| s.eg.explain_equivalence(re1, re2)) {
+                Ok(p) => p,
+                Err(p) => return Some(panic_violation("C07", "explain_returns", &p, at)),
+            };
+            out.bump("proofs_requested");
+            match catch_op(|| check_proof(&s.eg, &mut s.nm, &proof, &[], &rules, &(a.clone(), b.clone()))) {
+                Err(p) => return Some(panic_violation("C07", "proof_readable", &p, at)),
+                Ok(Err((clause, m))) => return Some(viol(&clause, format!("after rewriting, explaining {a} = {b}: {m}"), at)),
+                Ok(Ok((nodes, rule_leaves))) => {
+                    out.count("proof_nodes_checked", nodes);
+                    out.count("rule_leaves_checked", rule_leaves);
+                    out.bump("nonreflexive_proofs_checked");
+                }
+            }
+        }
+        None
     }
 
     fn viol(clause: &str, detail: String, at: usize) -> Violation {
